@@ -30,7 +30,7 @@ RULE = ('A: include trees (all ordered rooted tree shapes up to N files + repeat
 ASSUMPTIONS = ['in-memory readers registered after the two default readers', 'scratch directory created per run and removed']
 WITNESSES = ['later_binding_overrides_across_include', 'binding_after_include_wins', 'depth3', 'tree_mirrored',
              'imports_per_file', 'missing_include_ioerror', 'location_order', 'reader_order_within_location',
-             'absolute_bypasses', 'package_relative', 'namespace_package_location', 'namespace_package_two_portions', 'missing_nested_include_aborts', 'files_then_bindings_then_finalize',
+             'absolute_bypasses', 'package_relative', 'namespace_package_location', 'namespace_package_two_portions', 'module_is_not_a_directory', 'missing_nested_include_aborts', 'files_then_bindings_then_finalize',
              'finalize_disabled', 'unknown_default_error', 'real_files', 'repeated_inclusion', 'second_resolution_fresh', 'location_registered_twice']
 
 MEM1, MEM2 = {}, {}
@@ -521,6 +521,35 @@ def run_special_case(case, res):
                       (desc, out, r), desc)
       else:
         res.w('missing_nested_include_aborts')
+    elif kind in ('module_as_directory', 'builtin_module_as_directory'):
+      # the directory part of a package-relative name must be a package: a plain module (or a built-in one) has no
+      # directory of its own, so nothing can be read "inside" it
+      if kind == 'module_as_directory':
+        pk = 'c14pkg_modasdir'
+        os.makedirs(os.path.join(base, pk))
+        open(os.path.join(base, pk, '__init__.py'), 'w').close()
+        open(os.path.join(base, pk, 'mod.py'), 'w').close()
+        with open(os.path.join(base, pk, 'foo.gin'), 'w') as fh:
+          fh.write("c14.f.x = 'next to the module'\n")
+        sys.path.insert(0, base)
+        name = pk + '/mod/foo.gin'
+      else:
+        with open(os.path.join(base, 'foo.gin'), 'w') as fh:
+          fh.write("c14.f.x = 'current directory'\n")
+        os.chdir(base)
+        name = 'sys/foo.gin'
+      try:
+        gin.parse_config_file(name)
+        out = 'accepted'
+      except IOError:
+        out = 'IOError'
+      except Exception as e:  # pylint: disable=broad-except
+        out = type(e).__name__
+      if out != 'IOError' or F()[0] is not None:
+        res.violation('resolution_order', '%r: %r names no readable file (there is no such directory), yet parse: %s, '
+                      'f() = %r' % (desc, name, out, F()), desc)
+      else:
+        res.w('module_is_not_a_directory')
     elif kind.startswith('namespace_two_portions'):
       # a PEP 420 namespace package spread over two sys.path entries; the file may live in either portion
       pk = 'c14ns_' + kind
@@ -558,7 +587,7 @@ def run_special_case(case, res):
 SPECIALS = ['absolute_present', 'absolute_missing', 'package_regular', 'package_nested', 'namespace_location_missing',
             'namespace_location_later', 'namespace_location_present', 'namespace_two_portions_first',
             'namespace_two_portions_second', 'namespace_two_portions_include', 'earlier_copy_missing_include',
-            'earlier_reader_missing_include']
+            'earlier_reader_missing_include', 'module_as_directory', 'builtin_module_as_directory']
 
 
 # ------------------------------------------------------------------------------------ C: multi-file entry point
